@@ -302,6 +302,28 @@ let run_x86call = function
      | _ -> "ERR need exactly one instruction")
   | _ -> "ERR bad x86call line"
 
+(* x86mov|w|<one-instruction bytecode program text with the program's min/max>|<code> -> ok | bad *)
+let parse_mins (l : Stdlib.String.t) : mins =
+  match List.filter (fun x -> x <> "") (split_on ' ' l) with
+  | ["addrbp"; c] -> MAddRbp (zs c) | ["learax"; c] -> MLeaRaxRbp (zs c)
+  | ["subbase"] -> MSubRaxBase | ["sar"; n] -> MSarRax (zs n) | ["cmpsize"] -> MCmpRaxSize
+  | ["jb"] -> MJb | ["storeoff"] -> MStoreOff
+  | ["push"; r] -> MPush (zs r) | ["pop"; r] -> MPop (zs r) | ["subrsp"] -> MSubRsp | ["addrsp"] -> MAddRsp
+  | ["movrr"; d; s] -> MMovRR (zs d, zs s) | ["movi"; d; c] -> MMovI (zs d, zs c)
+  | ["call"; t] -> MCall (zs t)
+  | ["loadbase"] -> MLoadRbpBase | ["loadoff"] -> MLoadRaxOff
+  | ["learbp"; sc; d] -> MLeaRbpIdx (zs sc, zs d)
+  | _ -> failwith ("bad mov-template instruction " ^ l)
+let run_x86mov = function
+  | [w; bc; code] ->
+    let p = parse_bc (toks_of bc) in
+    (match p.bp_code, p.bp_live with
+     | [i], [live] ->
+       let ms = List.map parse_mins (List.filter (fun x -> String.trim x <> "") (split_on ';' code)) in
+       if mov_ok (zs w) i p.bp_min p.bp_max live ms then "ok" else "bad mismatch"
+     | _ -> "ERR need exactly one instruction")
+  | _ -> "ERR bad x86mov line"
+
 (* x86br|<one-instruction bytecode program text>|<code> -> ok | bad *)
 let run_x86br = function
   | [bc; code] ->
@@ -691,7 +713,7 @@ let run_bcmem = function
      | _ -> "notdone")
   | _ -> "ERR bad bcmem line"
 
-let handlers : (Stdlib.String.t * (Stdlib.String.t list -> Stdlib.String.t)) list ref = ref [ ("cell", run_cell); ("bf", run_bf); ("inplace", run_inplace); ("ir", run_ir); ("bc", run_bc); ("x86form", run_x86form); ("x86call", run_x86call); ("x86br", run_x86br); ("bcreach", run_bcreach); ("parse", run_parse); ("bfbig", run_bfbig); ("bcmem", run_bcmem); ("formsnf", run_formsnf); ("shapes", run_shapes); ("cli", run_cli); ("bcwf", run_bcwf); ("bfx", run_bfx); ("expr", run_expr); ("svec", run_svec); ("tape", run_tape); ("rawproto", run_rawproto); ("bfcycle", run_bfcycle); ("irbig", run_irbig) ]
+let handlers : (Stdlib.String.t * (Stdlib.String.t list -> Stdlib.String.t)) list ref = ref [ ("cell", run_cell); ("bf", run_bf); ("inplace", run_inplace); ("ir", run_ir); ("bc", run_bc); ("x86form", run_x86form); ("x86call", run_x86call); ("x86br", run_x86br); ("x86mov", run_x86mov); ("bcreach", run_bcreach); ("parse", run_parse); ("bfbig", run_bfbig); ("bcmem", run_bcmem); ("formsnf", run_formsnf); ("shapes", run_shapes); ("cli", run_cli); ("bcwf", run_bcwf); ("bfx", run_bfx); ("expr", run_expr); ("svec", run_svec); ("tape", run_tape); ("rawproto", run_rawproto); ("bfcycle", run_bfcycle); ("irbig", run_irbig) ]
 
 let () =
   (try
